@@ -229,6 +229,20 @@ pub fn gen(rng: &mut Rng, tier: Tier, out: &mut Vec<String>) {
             if k == 1 { out.push(one(rng, "krylov", "bicg", class, n, guess, budget, tol, scale, 2)); }
         }
     }
+    // weakly coupled "point source" systems: a scaled identity off column k, a full column k, a coupling eps = 10^[-9.3,-7]
+    // on the super-diagonal, right-hand side e_k (and the 2x2 version [[c, eps],[d, lam]], b = e_1). One stabilised step
+    // reduces the residual by 8-9 orders of magnitude: a residual norm that is not recomputed from r itself (or an update
+    // that cancels) reports success on an unsolved system here.
+    for i in 0..(if tier == Tier::Quick { 24 } else { 300 }) {
+        let eps = 10f64.powf(-9.3 + 2.3 * rng.unit());
+        let (n, k) = if i % 2 == 0 { (2usize, 0usize) } else { let n = 5 + rng.below(36); (n, rng.below(n)) };
+        let mut a = vec![vec![0.0f64; n]; n];
+        if n == 2 { a[0][0] = 0.2 + 2.8 * rng.unit(); a[1][0] = 1.0 + 149.0 * rng.unit(); a[0][1] = eps; a[1][1] = 0.5 + 3.0 * rng.unit(); }
+        else { let dg = 1.0 + 2.0 * rng.unit(); for r in 0..n { if r != k { a[r][r] = dg; } a[r][k] = if r == k { 0.3 + 0.7 * rng.unit() } else { 1.0 + 14.0 * rng.unit() }; if r + 1 < n && r + 1 != k { a[r][r + 1] = eps; } } }
+        let mut b = vec![0.0f64; n]; b[k] = 1.0;
+        for solver in SOLVERS { let tol = *rng.pick(&[1e-12, 1e-10, 1e-9, 1e-8]);
+            out.push(format!("krylov {} nonsym {} {} {} {} {} {} {} 1", solver, n, n, trips_of(rng, &a), vstr(&b), vstr(&vec![0.0; n]), *rng.pick(&[50usize, 200]), tol.wr())); }
+    }
     // malformed calls
     let a = system(rng, 3, "dd");
     for (rows, cols, bl, xl, itol) in [(3usize, 3usize, 2usize, 3usize, 1usize), (3, 3, 3, 2, 1), (3, 3, 3, 3, 3), (3, 3, 3, 3, 0)] {
